@@ -31,6 +31,7 @@ def strip_generics(s):
 
 
 _IMPL_RE = re.compile(r"^<(.+) as ([^<>]+(?:<.*>)?)>::([A-Za-z0-9_]+)$")
+_INHERENT_IMPL_RE = re.compile(r"^(.*)::<impl ([^<>]+)>::([A-Za-z0-9_#]+)(.*)$")
 _LOCAL_IMPL_RE = re.compile(r"^(.*)::<impl (.+) for (.+)>::([A-Za-z0-9_]+)(.*)$")
 
 
@@ -51,6 +52,9 @@ def name_forms(path):
         forms.add("%s::%s" % (trait_ng, meth))
         forms.add("<%s as %s>::%s" % (selfty, trait_ng, meth))
         forms.add("%s::%s" % (strip_generics(selfty).lstrip("&").replace("mut ", ""), meth))
+    mi = _INHERENT_IMPL_RE.match(p)
+    if mi and " for " not in mi.group(2):
+        forms.add("%s::%s%s" % (mi.group(2), mi.group(3), mi.group(4)))
     m = _LOCAL_IMPL_RE.match(path)
     if m:
         trait, selfty, meth, rest = m.group(2), m.group(3), m.group(4), m.group(5)
@@ -183,6 +187,7 @@ class Fn:
         self._pred = None
         self._dom = None
         self._calls = None
+        self._cj = None
         self.forms = name_forms(self.path)
 
     @property
@@ -220,6 +225,35 @@ class Fn:
                     self._pred[s].append(i)
         return self._pred[b]
 
+    def _const_jump(self, b):
+        """If block b assigns a constant to a bool local and falls (goto) into a block that only
+        switches on that local, return (switch_block, taken_successor): the `matches!`/`&&`/`||`
+        lowering `_x = const; goto s; s: switchInt(_x)` is followed precisely."""
+        if self._cj is None:
+            self._cj = {}
+            for i, blk in enumerate(self.blocks):
+                t = blk["t"]
+                if t["k"] != "goto":
+                    continue
+                s = t["target"]
+                sb = self.blocks[s]
+                st = sb["t"]
+                if st["k"] != "switch" or sb["s"]:
+                    continue
+                d = op_local(st["discr"])
+                if d is None:
+                    continue
+                val = None
+                for stt in blk["s"]:
+                    if "d" in stt and stt["d"]["l"] == d and not stt["d"].get("p"):
+                        k = op_const(stt["rv"].get("use")) if "use" in stt["rv"] else None
+                        val = k.get("int") if k and "int" in k else None
+                if val is None:
+                    continue
+                tgt = dict(st["targets"]).get(val, st["otherwise"])
+                self._cj[i] = (s, tgt)
+        return self._cj.get(b)
+
     def reachable(self, start=0, removed_edges=(), removed_blocks=()):
         """Blocks reachable from `start` avoiding the given edges/blocks."""
         removed_edges = set(removed_edges)
@@ -230,6 +264,13 @@ class Fn:
         seen.update(dq)
         while dq:
             b = dq.popleft()
+            cj = self._const_jump(b)
+            if cj is not None and (b, cj[0]) not in removed_edges and cj[0] not in removed_blocks:
+                sw, tgt = cj
+                if (sw, tgt) not in removed_edges and tgt not in removed_blocks and tgt not in seen:
+                    seen.add(tgt)
+                    dq.append(tgt)
+                continue
             for s in self.succs(b):
                 if (b, s) in removed_edges or s in removed_blocks or s in seen:
                     continue
